@@ -65,7 +65,7 @@ func (t *txnReg) brief() string {
 }
 
 var rawShapes = []string{"base", "committed", "rolledback", "pending", "noprimary", "pess-pending", "pess-half", "pess-committed", "pess-rolledback"}
-var asyncShapes = []string{"async-full", "async-partial", "async-primary-committed"}
+var asyncShapes = []string{"async-full", "async-partial", "async-primary-committed", "async-fallback"}
 var killShapes = []string{"kill-2pc", "kill-pess", "kill-async"}
 
 type popBuilder struct {
@@ -134,6 +134,19 @@ func (b *popBuilder) subset(ks []string) []string {
 	return out
 }
 
+func dedupe(ks []string) []string {
+	seen := map[string]bool{}
+	var out []string
+	for _, k := range ks {
+		if !seen[k] {
+			seen[k] = true
+			out = append(out, k)
+		}
+	}
+	sort.Strings(out)
+	return out
+}
+
 func without(ks []string, drop ...string) []string {
 	var out []string
 outer:
@@ -159,7 +172,7 @@ func (b *popBuilder) add(shape string, n int, run bool) (bool, error) {
 	}
 	min := 1
 	switch shape {
-	case "noprimary", "async-partial":
+	case "noprimary", "async-partial", "async-fallback":
 		min = 2
 	case "pess-committed":
 		min = 2 // one of them is the stale extra lock
@@ -283,6 +296,19 @@ func (b *popBuilder) add(shape string, n int, run bool) (bool, error) {
 				}
 			}
 		}
+	case "async-fallback":
+		// the committer fell back to 2PC in the middle of prewriting (a store answered min_commit_ts = 0): the
+		// primary's batch carries async-commit locks, later batches ordinary ones; the client died before
+		// committing.  Nobody was told "committed", the async-commit protocol cannot apply: rolled back.
+		t.Muts = b.muts(start, keys)
+		t.Async = true
+		sec := without(keys, primary)
+		plain := append([]string{sec[b.rng.Intn(len(sec))]}, b.subset(sec)...)
+		var maxMin uint64
+		if err = d.prewriteAsync(start, primary, t.Muts, without(keys, plain...), ttl, t.secondaries(), &maxMin); err == nil {
+			err = d.prewrite(start, primary, t.Muts, dedupe(plain), prewriteOpt{ttl: ttl})
+		}
+		lock(keys...)
 	default:
 		return false, fmt.Errorf("unknown shape %q", shape)
 	}
@@ -486,6 +512,7 @@ func isPess(l uni.LockRec) bool { return l.Type == kvrpcpb.Op_PessimisticLock }
 //   - the primary carries a commit record               -> committed at that ts
 //   - async commit: the primary carries an async-commit prewrite lock and every secondary carries a
 //     prewrite lock of t or a commit record of t        -> committed at max(min_commit_ts) (or the ts of a record)
+//     (a secondary with an ordinary prewrite lock = the committer had fallen back to 2PC -> not committed)
 //   - anything else (primary rolled back, pending, pessimistic, never written) -> not committed
 func deriveOutcome(t *txnReg, s *snapshotOfStore) outcome {
 	pk := s.truth.Keys[t.Primary]
@@ -514,6 +541,9 @@ func deriveOutcome(t *txnReg, s *snapshotOfStore) outcome {
 			continue
 		}
 		if l, ok := s.locks[sk]; ok && l.StartTS == t.Start && !isPess(l) {
+			if !l.UseAsync {
+				return outcome{Why: fmt.Sprintf("async commit: secondary %q carries an ordinary prewrite lock (fallback to 2PC), primary not committed", sk)}
+			}
 			if l.MinCommitTS > maxMin {
 				maxMin = l.MinCommitTS
 			}
@@ -853,11 +883,20 @@ func runGCCase(r *vrep.Report, cs gcCase) {
 	crng := rand.New(rand.NewSource(cs.Seed ^ 0xc14))
 	splitBudget := cs.Splits
 	var splitsDuring, topoDuring, faults atomic.Int64
+	// logical progress bound: every scan request either finds a lock that is then resolved or finishes a region,
+	// apart from retries after (budgeted) faults and topology changes
+	scanBound := int64(400 + 40*(old+cs.Regions+cs.Splits))
+	var scanCount atomic.Int64
+	var runaway atomic.Bool
 	gc.Net.SetDecider(func(c *uni.Call) uni.Action {
 		switch c.Cmd {
 		case tikvrpc.CmdScanLock, tikvrpc.CmdResolveLock, tikvrpc.CmdCheckTxnStatus, tikvrpc.CmdCheckSecondaryLocks, tikvrpc.CmdPessimisticRollback:
 		default:
 			return uni.Action{}
+		}
+		if c.Cmd == tikvrpc.CmdScanLock && scanCount.Add(1) > scanBound {
+			runaway.Store(true)
+			return uni.Action{Kind: uni.KillBefore}
 		}
 		mu.Lock()
 		defer mu.Unlock()
@@ -941,7 +980,7 @@ func runGCCase(r *vrep.Report, cs gcCase) {
 	var out res
 	select {
 	case out = <-done:
-	case <-time.After(3 * time.Minute): // watchdog only
+	case <-time.After(90 * time.Second): // watchdog only
 		r.Inconc("%s seed=%d: GC did not return (watchdog)", cs, cs.Seed)
 		return
 	}
@@ -992,6 +1031,9 @@ func runGCCase(r *vrep.Report, cs gcCase) {
 		return
 	}
 	full := out.err == nil
+	if runaway.Load() {
+		r.Inconc("%s seed=%d: GC sent more than %d ScanLock requests for %d locks in %d regions without finishing; its client was stopped", cs, cs.Seed, scanBound, old, cs.Regions)
+	}
 	probs, expected, outcomes := judge(b.regs, before, after, sp, full)
 	seenSig := map[string]bool{}
 	for _, p := range probs {
@@ -1005,7 +1047,7 @@ func runGCCase(r *vrep.Report, cs gcCase) {
 	r.Eval(len(before.locks) + len(keys) + len(b.regs))
 	if out.err != nil {
 		r.Count("gc_returned_error", 1)
-		if faults.Load() == 0 {
+		if faults.Load() == 0 && !runaway.Load() {
 			r.Violate("gc:error-without-fault:"+cs.Mode, fmt.Sprintf("%s: GC returned %s although no fault was injected", cs, es(out.err)), detail(nil))
 		} else {
 			r.Count("gc_error_after_faults", 1)
